@@ -2,20 +2,27 @@ package main
 
 import (
 	"fmt"
-	"time"
+	"os"
+
+	"github.com/luthersystems/elps/lisp"
 
 	"verifharness/rt"
 )
 
 func main() {
-	t := time.Now()
-	for i := 0; i < 20; i++ {
-		rt.New(rt.Opts{})
+	src, _ := os.ReadFile(os.Args[1])
+	for _, dbg := range []bool{true, false} {
+		r := rt.New(rt.Opts{Debugger: dbg})
+		v := r.Env.LoadString("t", string(src))
+		fmt.Println("debugger:", dbg, "=>", v)
+		if v.Type == lisp.LError {
+			loc, ok := v.Source()
+			fmt.Printf("  site %v ok=%v pos=%d end=%d line=%d col=%d\n", loc, ok, loc.Pos, loc.EndPos, loc.Line, loc.Col)
+			st := v.CallStack()
+			for i := len(st.Frames) - 1; i >= 0; i-- {
+				f := st.Frames[i]
+				fmt.Printf("  frame %d: %s:%s fid=%s src=%v term=%v blk=%v\n", i, f.Package, f.Name, f.FID, f.Source, f.Terminal, f.TROBlock)
+			}
+		}
 	}
-	fmt.Println("rt.New with stdlib:", time.Since(t)/20)
-	t = time.Now()
-	for i := 0; i < 20; i++ {
-		rt.New(rt.Opts{NoStdlib: true})
-	}
-	fmt.Println("rt.New without stdlib:", time.Since(t)/20)
 }
